@@ -5,35 +5,6 @@ open Nima
 
 /-! ### safety scan -/
 
-/-- a rendered comment token is a line comment -/
-def isLineTok (t : Text) : Bool := t.head? == some '#'
-
-/-- does writing piece `p` after a state `o` (= a line comment is open) keep the comment from
-    absorbing anything? whitespace after an open line comment must start with the line break; a
-    token or comment must not follow it directly; empty pieces write nothing -/
-def stepOk (o : Bool) (p : FP) : Bool :=
-  p.text.isEmpty ||
-    match p with
-    | .ws s => !o || startsWithNL s
-    | _ => !o
-
-/-- the state after writing `p` -/
-def stepOpen (o : Bool) (p : FP) : Bool :=
-  if p.text.isEmpty then o
-  else match p with
-    | .cmt s => isLineTok s
-    | _ => false
-
-/-- Scan of a piece list for "a comment never absorbs code". -/
-def safeGo : Bool → List FP → Bool
-  | _, [] => true
-  | o, p :: rest => stepOk o p && safeGo (stepOpen o p) rest
-
-/-- the state after the scan -/
-def openAfter : Bool → List FP → Bool
-  | o, [] => o
-  | o, p :: rest => openAfter (stepOpen o p) rest
-
 theorem safeGo_append : ∀ (o : Bool) (a b : List FP),
     safeGo o (a ++ b) = (safeGo o a && safeGo (openAfter o a) b)
   | o, [], b => by simp [safeGo, openAfter]
